@@ -555,7 +555,8 @@ func httpCancel(res *fw.Result) error {
 	ts := httptest.NewServer(srv)
 	defer ts.Close()
 	var cl scen.CL
-	closer, err := jsonrpc.NewMergeClient(context.Background(), ts.URL, "SH", []interface{}{&cl}, nil)
+	// (a short WebSocket-style timeout is configured: over HTTP it has no business ending a call)
+	closer, err := jsonrpc.NewMergeClient(context.Background(), ts.URL, "SH", []interface{}{&cl}, nil, jsonrpc.WithTimeout(300*time.Millisecond))
 	if err != nil {
 		return err
 	}
@@ -582,6 +583,12 @@ func httpCancel(res *fw.Result) error {
 	}
 	if c, _ := h.C.CtxErr(910002); c {
 		res.Add(fw.Finding{Kind: "monitor", Signature: "http spurious cancellation", Detail: "aborting one HTTP call cancelled another call's handler context"})
+	}
+	// the uncancelled call goes on for several times the configured timeout
+	time.Sleep(900 * time.Millisecond)
+	if c, _ := h.C.CtxErr(910002); c {
+		res.Add(fw.Finding{Kind: "monitor", Signature: "http call ended by the library", Detail: "an HTTP call in flight for 1s (client option WithTimeout(300ms)) had its handler's context cancelled although its caller did not cancel",
+			Case: map[string]interface{}{"scenario": "http-long-call", "timeout": "300ms"}})
 	}
 	h.C.Release(910002)
 	res.Count("http")
@@ -854,7 +861,15 @@ func endOne(d *fw.Driver, res *fw.Result, seed int64, cause string, reaction tim
 	sig := fmt.Sprintf("connection-end cause=%s reaction=%v gate=%s", cause, reaction, gateSite)
 	h.C.Reaction = reaction
 	// handlers in progress: unary with id (large and small responses), a notification, a stream, a reverse call
-	toks := []int{base + 1, base + 2, base + 3, base + 4, base + 5}
+	toks := []int{base + 1, base + 2, base + 3, base + 4, base + 5, base + 6}
+	go func() {
+		// a stream whose producer stops on cancellation without closing its channel
+		ch, err := cl.SubLeaky(ctx, base+6)
+		if err == nil && ch != nil {
+			for range ch {
+			}
+		}
+	}()
 	go cl.Block(ctx, base+1)
 	go cl.BlockBig(ctx, base+2, 300000)
 	go func() {
